@@ -556,14 +556,27 @@ func (r *pkgRun) saveFile(tag string) ([]byte, string) {
 		f = filepath.Join(r.dir, "out-"+tag, "sub", "d.docx")
 	}
 	if err := r.doc.Save(f); err != nil {
+		r.probeDir()
 		return nil, "err"
 	}
 	b, err := os.ReadFile(f)
 	if err != nil {
+		r.probeDir()
 		return nil, "err-read"
 	}
 	os.Remove(f)
 	return b, "ok"
+}
+
+// probeDir: a failing Save must be the library's doing, not the scratch directory's (full disk, removed
+// directory): if a plain file cannot be written there either, the harness stops as a machinery failure.
+func (r *pkgRun) probeDir() {
+	p := filepath.Join(r.dir, "probe.tmp")
+	if err := os.WriteFile(p, []byte("x"), 0o644); err != nil {
+		fmt.Fprintln(os.Stderr, "scratch directory unusable:", err)
+		os.Exit(2)
+	}
+	os.Remove(p)
 }
 
 func pkgTemplateText(tk, lit string) string {
@@ -617,10 +630,12 @@ func pkgMarkdown(mk, s, s2 string) string {
 func runPkg(c Case, emit Emitter) {
 	var extra struct {
 		Lazy bool `json:"lazy"`
+		Conc int  `json:"conc"` // shifts the choice of the concrete string / name within each class
 	}
 	if len(c.Extra) > 0 {
 		json.Unmarshal(c.Extra, &extra)
 	}
+	pkgConc = extra.Conc
 	runPkgPass(c, emit, false)
 	if extra.Lazy {
 		runPkgPass(c, emit, true)
